@@ -5,8 +5,9 @@
 
   * `BaseSpectrum.__init__`, `_process_generic_param`, `_process_wave_param`
     (synphot/spectrum.py:128-196, 247-259);
-  * `SourceSpectrum._process_flux_param` (spectrum.py:1147-1155: flux-density check, then
-    `convert_flux` at `self._redshift_model(wave)`, i.e. at the reference wavelength × (1+z));
+  * `SourceSpectrum._process_flux_param` (spectrum.py:1148-1162: flux-density check, refusal of a unit
+    other than PHOTLAM when the class has no reference wavelength, then `convert_flux` at
+    `self._redshift_model(wave)`, i.e. at the reference wavelength × (1+z));
   * `BaseUnitlessSpectrum._process_flux_param` (spectrum.py:1403-1405);
   * `models.ConstFlux1D.__init__`, `models.PowerLawFlux1D.__init__`,
     `models.GaussianFlux1D.__init__` (synphot/models.py:264-281, 718-736, 552-581).
@@ -103,14 +104,14 @@ def isFluxDensity : FluxUnit K → Bool
   | _ => true
 
 /-- `convert_flux(self._redshift_model(wave), pval, PHOTLAM)`: conversion of every element at its own
-reference wavelength × (1+z).  `wave = none`: the model has no entry in `_model_fconv_wav`; the
-conversion is attempted with `RedshiftScaleFactor(z)(None) = nan`: identical units return the
-input untouched, everything else becomes NaN. -/
+reference wavelength × (1+z).  `wave = none`: the class has no entry in `_model_fconv_wav` (`Const1D`):
+there is no wavelength to convert at, so only the internal unit is accepted (returned untouched) and any
+other flux unit is refused with `SynphotError` (spectrum.py, as repaired by 0d4a51b). -/
 def convertAtRef (P : PhysConst K) (T : Transc K) (z : K) (wave : Option (List K)) (u : FluxUnit K)
     (f : List K) : Except Err (List K) :=
   match wave with
   | some w => convertFlux P T (w.map (· * (1 + z))) f u .photlam none none
-  | none => if u = .photlam then .ok f else .error .nan
+  | none => if u = .photlam then .ok f else .error .synphotError
 
 /-- `_process_flux_param` of the two families of public classes -/
 def processFlux (P : PhysConst K) (T : Transc K) (cls : SpecClass) (z : K) (wave : Option (List K))
@@ -255,7 +256,8 @@ def mkPowerLawFlux (P : PhysConst K) (args : Args K) : Except Err (Leaf K) :=
 /-- the object `modelclass(**modargs)` returns, for the classes of `_model_param_dict` -/
 inductive Built (K : Type)
   | leaf (l : Leaf K)
-  | const1Q (amp : K) (u : QUnit K)          -- astropy `Const1D` holding a Quantity amplitude
+  | const1Q (amp : K) (u : QUnit K)          -- astropy `Const1D` handed a Quantity (not reachable through
+                                             -- `processArgs` with the source's dictionaries: its amplitude is 'flux')
   | gaussAbs (amp mean sd : K)               -- GaussianAbsorption1D
   | powerLaw1 (amp x0 alpha : K)             -- astropy PowerLaw1D
   | brokenPowerLaw (amp xb a1 a2 : K)        -- astropy BrokenPowerLaw1D
